@@ -820,6 +820,45 @@ def _assignment_key(ctx):
            construct='assignment key agreement')
 
 
+def _assignment_pattern(ctx):
+    """C06.7: an assignment speaks for the instances of the application it
+    names, nothing else: the pattern compiled for it is the recorded pattern
+    followed by the instance separator and ten digits (``name#0000000001``).
+    A looser suffix (``*``) also matches every application whose name merely
+    starts with the recorded one and hands it the priority and allocation of
+    its neighbour."""
+    import re as _re
+    loader = ctx.index.get_class(K.LOADER, 'Loader')
+    filer = loader.methods.get('load_allocations')
+    ctx.require(filer is not None, 'Loader.load_allocations', rule='C06.7')
+    sites = [c for c in K.calls(filer.node)
+             if K.callee_text(c).endswith('fnmatch.translate') and c.args]
+    ctx.require(sites, 'fnmatch.translate(<assignment pattern>) in '
+                'load_allocations', rule='C06.7', func=filer)
+    for call in sites:
+        expr = K.rexpr(filer, call.args[0])
+        parts = []
+        cur = expr
+        while isinstance(cur, ast.BinOp) and isinstance(cur.op, ast.Add):
+            parts.insert(0, cur.right)
+            cur = cur.left
+        parts.insert(0, cur)
+        head, tail = parts[0], parts[1:]
+        suffix = None
+        try:
+            suffix = ''.join(K.fold_literal_table(p) for p in tail)
+        except Exception:       # pylint: disable=broad-except
+            suffix = None
+        recorded = isinstance(head, ast.Subscript) and isinstance(
+            head.slice, ast.Constant) and head.slice.value == 'pattern'
+        ok = recorded and isinstance(suffix, str) and _re.fullmatch(
+            r'(\[#\]|#)(\[0-9\]){10}', suffix) is not None
+        ctx.ob('C06.7', filer, call, ok,
+               "the compiled pattern is <recorded pattern> + '#' + ten "
+               'digits (found suffix %r)' % (suffix,),
+               construct='assignment pattern suffix')
+
+
 def _every_event(ctx):
     """C06.7: every event of a batch reaches the handler of its resource - a
     priority update is an event of its own, and two of them may be pending
@@ -1042,11 +1081,17 @@ def check(ctx):
     _cumulative(ctx, priv, merged)
     _every_load_queues(ctx)
     _assignment_key(ctx)
+    _assignment_pattern(ctx)
     _every_event(ctx)
     _sentinel(ctx, priv, merged)
     _layout(ctx, priv, merged)
     _exactly_once(ctx, priv, merged)
     _single_membership(ctx)
+    # an instance is considered once per cycle - which takes the cycle to
+    # run the placement loop over the queue at all: it is that loop which
+    # takes a running instance beyond the utilisation cap off its server
+    from .sched_model import loop_always_run
+    loop_always_run(ctx, 'C06.5')
     _unplaced(ctx)
     _manifest_priority(ctx)
 
